@@ -415,6 +415,7 @@ func HarnessC14LitIDs() {
 	aloneB := c14LitIDs("p/b.fer", srcB)
 	verifrt.Assert(len(aloneA) == 5 && len(aloneB) == 4, "CALIBRATION: the literals of the two modules are not all found")
 	var gotA, gotB []string
+	verifrt.DelayBound(2) // every schedule with at most two delays (the lexer's and parser's own locks are sync points too)
 	verifrt.Interleave(
 		func() { gotA = c14LitIDs("p/a.fer", srcA) },
 		func() { gotB = c14LitIDs("p/b.fer", srcB) },
